@@ -62,6 +62,27 @@ jobs:
       - id: «cs»
         run: echo ${{ «inputs».«cin» }} ${{ «secrets».«csec» }}
 `,
+	// both triggers in one file, workflow_call written first: the default of a call input reads a
+	// dispatch input (names of one event used while another is being checked)
+	".github/workflows/dual.yml": `on:
+  workflow_call:
+    inputs:
+      «dcin»:
+        type: string
+        default: ${{ «inputs».«ddin» }}
+      «dcin2»:
+        type: string
+        default: ${{ «inputs».«dcin» }}
+  workflow_dispatch:
+    inputs:
+      «ddin»:
+        type: string
+jobs:
+  «dj»:
+    runs-on: ubuntu-latest
+    steps:
+      - run: echo ${{ «inputs».«dcin» }} ${{ «inputs».«ddin» }} ${{ «github».«event».«inputs».«ddin» }}
+`,
 	".github/workflows/main.yml": `on:
   workflow_dispatch:
     inputs:
@@ -195,7 +216,7 @@ func c08Lint(root string, files map[string]string) ([]string, error) {
 		}
 	}
 	var all []string
-	for _, wf := range []string{".github/workflows/main.yml", ".github/workflows/callee.yml"} {
+	for _, wf := range []string{".github/workflows/main.yml", ".github/workflows/callee.yml", ".github/workflows/dual.yml"} {
 		var out bytes.Buffer
 		l, err := NewLinter(&out, &LinterOptions{WorkingDir: root})
 		if err != nil {
